@@ -172,7 +172,9 @@ func DiskObjects(fs *simrt.FS, dir, ext string, compress bool) (map[string]*shap
 }
 
 // checkLayout is the C18 invariant at a quiescent point.
-func (s *Seq) checkLayout(ctx string) {
+func (s *Seq) checkLayout(ctx string) { s.softOracle("layout", func() { s.checkLayout0(ctx) }) }
+
+func (s *Seq) checkLayout0(ctx string) {
 	if !s.quiescent {
 		return
 	}
